@@ -320,7 +320,7 @@ func TestCheck(t *testing.T) {
 	mock.RegisterTransport()
 	r := h.Start(t, "C15")
 	defer r.Finish()
-	r.Meta("rule", "a real Service and Client over the mock transport; handlers (4 invoke functions, 4 IO functions, two two-sided plugin types, an invoke-only and an IO-only plugin type: all with distinct code) record enter/exit per call id and append their id to the result on the way back. Exhaustive: every sequence of length <= 5 of Use/Unuse over 3 handlers for each of the four managers (client invoke, client IO, service invoke, service IO) and for two-sided plugins on client and service, a call after every operation compared with a list model (append on Use, remove all equal on Unuse, no-op for absent), including repeated, absent and already removed handlers and short-circuiting handlers; seeded random sequences of length <= 40 over the whole pool on both sides at once; concurrent histories (2 mutators, 4 callers) per manager checked with porcupine against the list model, every trace checked for onion nesting; the race detector watches plugin_manager.go. distinct_nontrivial = distinct operation sequences with a non-empty chain at the probe call")
+	r.Meta("rule", "a real Service and Client over the mock transport; handlers (4 invoke functions, 4 IO functions, two two-sided plugin types, an invoke-only and an IO-only plugin type: all with distinct code) record enter/exit per call id and append their id to the result on the way back. Exhaustive: every sequence of length <= 5 of Use/Unuse over 3 handlers for each of the four managers (client invoke, client IO, service invoke, service IO) and for two-sided plugins on client and service, a call after every operation compared with a list model (append on Use, remove all equal on Unuse, no-op for absent), including repeated, absent and already removed handlers and short-circuiting handlers; seeded random sequences of length <= 40 over the whole pool on both sides at once; concurrent histories (2 mutators, 4 callers) per manager checked with porcupine against the list model, every trace checked for onion nesting; the race detector watches plugin_manager.go. distinct_nontrivial = distinct operation sequences with a non-empty chain at the probe call Added: two distinct plugin objects with equal contents; inner handlers that return a response (or results) together with an error, whose pair every outer handler must be handed.")
 	r.Meta("exhaustive", true)
 	r.Meta("assumptions", []string{
 		"handlers are distinguished by identity of their code (separately declared functions / distinct plugin types); handlers that share code are the subject of a known finding",
